@@ -106,6 +106,15 @@ impl MechErrorKind for RangeSizeOverflowError {
   }
 }
 
+// Number of terms of an exclusive range: a fractional span still holds one more term below the end
+// (0.5..3.2 is 0.5, 1.5, 2.5), so floats round the span up.
+#[macro_export]
+macro_rules! range_exclusive_size_to_usize {
+  ($diff:expr, f32) => {{ let v: f32 = $diff; range_size_to_usize!(v.ceil(), f32) }};
+  ($diff:expr, f64) => {{ let v: f64 = $diff; range_size_to_usize!(v.ceil(), f64) }};
+  ($diff:expr, $ty:tt) => { range_size_to_usize!($diff, $ty) };
+}
+
 #[macro_export]
 macro_rules! range_size_to_usize {
   // Float f32 branch
